@@ -53,6 +53,14 @@ CLAIMED = {
    "invariant monitor on the raw view state (workbook.views / worksheet.views, not the getters that fall back to defaults) after every event of histories dense in sheet add/delete/duplicate/move/hide at every index relative to the selected one, selection and keyboard/mouse navigation, hide rows/columns, undo/redo",
    "only view 0 exists in these sessions",
    "deterministic simulation: invariant monitor over seeded histories of sheet and navigation events", "6 C28"),
+ "C29": ("exploration",
+   "reference model of line attributes (map line -> actual size, hidden flag, style) checked after every event on two nodes: a bare Model driven through its own setters (set_column_width / set_column_hidden / set_column_style / delete_column_style and the row equivalents, byte-level restarts), started empty, from one of four multi-column descriptor layouts or from an imported fixture; and an editing session driven through the user-level multi-line operations, whole-column / whole-row / partial update_range_style and range_clear_formatting, undo/redo (history cursor over reference states) and clean restarts. After every event every line of the check set (window 1..14, the last two lines of the grid, every line a descriptor mentions and its neighbours, every line ever touched) is read through the public getters: targeted attribute = new value, every other attribute of every line = reference; visible size = 0 iff hidden. Sampling, not proof.",
+   "events the model does not describe (typing, structural edits, pastes: sprinkled in at 3-20%) resynchronise the reference, and so does undo/redo of such an event (that is C01's subject); the new style of a whole-line update_range_style is taken from the engine (its content is C30's subject)",
+   "deterministic simulation: seeded operation histories with restarts and undo/redo against a reference model of row/column attributes", "6 C29"),
+ "C30": ("exploration",
+   "reference model target -> last assigned style on the same two nodes: a per-run pool of 10 styles drawn from the attribute space (40 number-format codes including built-in ones in other letter case, font name/family/scheme/size, five border sides in nine line styles, diagonal flags, fills, eight horizontal and five vertical alignments, wrap, quote prefix) is assigned to cells, rows and columns of the bare Model and, through on_paste_styles, to cell ranges of the session, interleaved with every other operation, restarts and (fixture-imported) style pools that shadow built-in number-format ids; after every event every tracked target must read back exactly the style last assigned to it, which also decides the no-aliasing clause (an assignment to one target must not change what another reads). Sampling, not proof.",
+   "a tracked target is dropped when an event may legitimately restyle it (typing into it, a style/border/clear operation over it or next to it, any structural edit, paste, undo/redo); styles parented to named styles are exercised only as far as fixtures and ApplyNamedStyle events bring them",
+   "deterministic simulation: seeded histories of style assignments interleaved with other operations and restarts, read-back against a last-assignment reference model", "6 C30"),
  "C01": ("exploration",
    "seeded deterministic simulation of editing histories (swarm-selected operation families, 3-40 events, undo/redo interleaved, hash seed and clock owned by the simulator) checked event by event against a history-cursor reference model over the observable snapshot; every violation is minimised and replays from a file. Sampling, not proof.",
    "bounds of DESIGN 2.2; 'observable' = the snapshot of DESIGN 3; open genuine defects are listed in known_findings.json and reported as KNOWN-FINDING",
